@@ -66,3 +66,35 @@ PROPS = {
     "C18": {"units": ["U1", "U2", "U3", "U4"]},
     "C19": {"units": []},
 }
+
+
+# ---- unverified glue (tools/glue.py): which properties' arguments pass through the uncovered text of a function ----
+import re as _re
+
+_RUNTIME_PROPS = ["C01", "C02", "C03", "C04", "C05", "C06", "C07", "C08", "C09", "C10", "C15", "C20"]
+
+
+def glue_props(file, fn):
+    if file == "src/fn_graph.rs":
+        if _re.match(r'FnGraph::(iter|iter_rev|iter_insertion\w*|map|fold|try_fold|for_each|try_for_each|toposort)(#\d+)?$', fn):
+            return ["C14"]
+        if _re.match(r'FnGraph::ranks', fn):
+            return ["C13"]
+        return _RUNTIME_PROPS + ["C14"] if fn.startswith("FnGraph<") or fn.startswith("FnGraph::new") else _RUNTIME_PROPS
+    if file.startswith("src/fn_graph_builder"):
+        return ["C01", "C06", "C11", "C12", "C13", "C16", "C18"]
+    if file in ("src/graph_info.rs", "src/edge.rs", "src/fn_id_inner.rs", "src/fn_id.rs"):
+        return ["C17"] + (["C11", "C16"] if file != "src/graph_info.rs" else [])
+    if file == "src/stream_opts.rs":
+        return ["C02", "C08"]
+    if file == "src/stream_outcome.rs":
+        return ["C07", "C09"]
+    if file in ("src/fn_ref.rs", "src/fn_wrapper.rs", "src/fn_wrapper_mut.rs"):
+        return ["C04", "C05"]
+    if file.startswith("src/data_access"):
+        return ["C01", "C06", "C11"]
+    if file == "src/rank.rs":
+        return ["C13", "C12"]
+    if file == "src/edge_counts.rs":
+        return ["C02", "C03", "C15"]
+    return []
